@@ -240,7 +240,11 @@ def check_minor_call(res, call, desc, planted=None, noise_free=False, check_opt=
         else:
             res.check("reported_is_scored_assignment", True)
         if si == 0 and check_opt:
-            opt, wit = ref.optimum(upper=tiefree - TOL)
+            try:
+                with util.time_limit(20):
+                    opt, wit = ref.optimum(upper=tiefree - TOL, node_cap=60000)
+            except util.Slow:
+                opt, wit = None, None
             if opt is None:
                 res.count("skipped_search_cap")
             elif opt < tiefree - TOL * max(1, abs(tiefree)):
@@ -289,7 +293,11 @@ def check_minor_call(res, call, desc, planted=None, noise_free=False, check_opt=
         nontrivial = True
     if not call["sols"]:
         # nothing reported: the reference must not find an admissible assignment either
-        opt, wit = ref.optimum()
+        try:
+            with util.time_limit(15):
+                opt, wit = ref.optimum(node_cap=60000)
+        except util.Slow:
+            opt, wit = None, None
         if opt is None:
             res.count("skipped_search_cap")
         else:
@@ -404,30 +412,65 @@ def _opt_case(res, rng, ident):
     prof = Profile("test", phase=use_phase)
     if rng.random() < 0.15:
         prof.update({"minor_add": rng.choice([0.5, 1.0, 2.0]), "minor_miss": rng.choice([1.0, 1.5])})
+    # uncatalogued variants through the `novel` switch of the programming interface
+    use_novel = rng.random() < 0.15
+    if use_novel:
+        for _ in range(rng.choice([1, 2])):
+            exonic = [c for c in g.chr_to_ref if any(s_ <= g.chr_to_ref[c] < e_ for s_, e_ in g.exons)]
+            if exonic:
+                p_ = rng.choice(exonic)
+                b_ = g[p_]
+                if b_ in "ACGT" and p_ not in counts:
+                    alt_ = rng.choice([x for x in "ACGT" if x != b_])
+                    counts[p_] = {"_": depth * len(pert) - depth, f"{b_}>{alt_}": depth}
     cov = tables.make_coverage(g, counts, profile=prof, phases=phases)
     cn = CNSolution(g, 0, tables.cn_list(g, copies))
     majors = collections.Counter(c[0] for c in copies)
     major = MajorSolution(0, collections.Counter({SolvedAllele(g, m): c for m, c in majors.items()}),
                           cn, list(novel))
     max_solutions = rng.choice([1, 1, 1, 3])
+    # companions: other candidate major solutions refined in the same call (their minors and variants are pooled)
+    companions = []
+    if rng.random() < 0.35:
+        names = [a for a, al in g.alleles.items() if al.cn_config == "1"]
+        for _ in range(rng.choice([1, 2])):
+            alt = list(majors.elements())
+            alt[rng.randrange(len(alt))] = rng.choice(names)
+            altc = collections.Counter(alt)
+            if altc != majors and all(g.alleles[a].cn_config in cn.solution for a in altc):
+                cfg = collections.Counter(g.alleles[a].cn_config for a in altc.elements())
+                if cfg == collections.Counter(cn.solution):
+                    nov = [m for m in fm if rng.random() < 0.1][:1]
+                    companions.append(MajorSolution(rng.choice([0, 0.5]), collections.Counter(
+                        {SolvedAllele(g, m): c for m, c in altc.items()}), cn, [Mutation(*x) for x in nov]))
     desc = {"gene": gname, "genome": genome, "ident": ident, "depth": depth, "eps": eps,
             "planted": [[c[0], c[1], sorted(str(m) for m in c[2]), sorted(str(m) for m in c[3])] for c in pert],
             "novel": [str(m) for m in novel], "phase_fragments": len(phases or {}),
-            "max_solutions": max_solutions}
+            "max_solutions": max_solutions, "companions": len(companions), "novel_switch": use_novel}
     lpmon.reset()
     with Capture() as cap:
         try:
-            estimate_minor(g, cov, [major], "any", max_solutions=max_solutions)
+            with util.time_limit(25):
+                estimate_minor(g, cov, [major] + companions, "any", max_solutions=max_solutions, novel=use_novel)
         except RecursionError:
             res.count("skipped_recursion")
+            return None
+        except util.Slow:
+            res.count("skipped_slow_enumeration")
             return None
     for rec in lpmon.RECORDS:
         for p in rec.problems:
             res.check("lp_" + p.clause, False, p.what, **p.w)
     if not cap.calls:
         return None
-    noise_free = eps == 0 and not novel and not use_phase and not stressed
-    nt = check_minor_call(res, cap.calls[0], desc, planted=pert, noise_free=noise_free)
+    noise_free = eps == 0 and not novel and not use_phase and not stressed and not use_novel
+    nt = False
+    for call in cap.calls:
+        mine = call["major_sol"] is major or (
+            collections.Counter({a.major: c for a, c in call["major_sol"].solution.items()}) == majors
+            and list(call["major_sol"].added) == list(novel))
+        nt = check_minor_call(res, call, dict(desc, candidate="planted" if mine else "companion"),
+                              planted=pert if mine else None, noise_free=noise_free and mine) or nt
     res.count("phase_cases" if use_phase else "nophase_cases")
     if nt and (any(c[0] != "1" or c[2] or c[3] for c in pert)) and (eps or use_phase or any(c[2] or c[3] for c in pert)):
         return desc
